@@ -23,7 +23,7 @@ import time
 
 HERE = os.path.dirname(os.path.abspath(__file__))
 TARGETS = ["Rawr.Proofs.RustTextAgree", "Rawr.Proofs.RustTextAgree_GetFen", "Rawr.Proofs.RustTextAgree_SetFen",
-           "Rawr.Proofs.RustTextAgree_Uci", "Rawr.Proofs.RustTextAgree_Go"]
+           "Rawr.Proofs.RustTextAgree_Uci", "Rawr.Proofs.RustTextAgree_Go", "Rawr.Proofs.RustTextAgree_Rules"]
 STARTFEN = "rnbqkbnr/pppppppp/8/8/8/8/PPPPPPPP/RNBQKBNR w KQkq - 0 1"
 
 SQ, UMV, GF, SF, FF, POS, CMV, MOV, UPOS, PFT, SOPT, GO = (
